@@ -128,16 +128,25 @@ class Rig:
         vt.reset(0.0)
         seg = cfg["seg"]
         common = dict(numberOfApduRetries=cfg["retries"], apduTimeout=cfg["tapdu"], segmentTimeout=cfg["tseg"],
-                      maxApduLengthAccepted=seg, maxSegmentsAccepted=cfg.get("maxsegs", 64),
                       applicationTimeout=cfg["tapp"])
-        self.c = Peer(self, "c", 1, dict(common, proposedWindowSize=cfg["pwc"],
+        self.c = Peer(self, "c", 1, dict(common, proposedWindowSize=cfg["pwc"], maxApduLengthAccepted=cfg.get("c_max", seg),
+                                          maxSegmentsAccepted=cfg.get("c_maxsegs", cfg.get("maxsegs", 64)),
                                           segmentationSupported=cfg.get("c_seg", "segmentedBoth")))
-        self.s = Peer(self, "s", 2, dict(common, proposedWindowSize=cfg["pws"],
+        self.s = Peer(self, "s", 2, dict(common, proposedWindowSize=cfg["pws"], maxApduLengthAccepted=cfg.get("s_max", seg),
+                                          maxSegmentsAccepted=cfg.get("s_maxsegs", cfg.get("maxsegs", 64)),
                                           segmentationSupported=cfg.get("s_seg", "segmentedBoth")))
+        if cfg.get("known"):
+            # the client has heard the server's I-Am: the library's own DeviceInfoCache.iam_device_info fills the cache
+            from bacpypes.apdu import IAmRequest
+            iam = IAmRequest(iAmDeviceIdentifier=("device", 2), maxAPDULengthAccepted=cfg.get("s_max", seg),
+                             segmentationSupported=cfg.get("s_seg", "segmentedBoth"), vendorID=999)
+            iam.pduSource = self.s.addr
+            self.c.smap.deviceInfoCache.iam_device_info(iam)
         self.req = coded(cfg["lq"])
         self.resp = coded(cfg["lr"]) if cfg.get("lr") is not None else None
-        self.nq = max(1, -(-cfg["lq"] // seg))
-        self.nr = 0 if self.resp is None else max(1, -(-cfg["lr"] // seg))
+        self.nq = 1                      # segment counts as the state machines compute them (read after Submit / AppRespond)
+        self.nr = 0 if self.resp is None else 1
+        self.chunk = {"CR": None, "CA": None}      # octets per non-final segment, as observed on the wire
         self.net = []          # [octets, at, dir, hdr]
         self.tx = []
         self.wire = []
@@ -155,7 +164,9 @@ class Rig:
         h = parse_apdu(octets)
         d = "cs" if peer is self.c else "sc"
         whole = self.req if h["k"] == "CR" else self.resp
-        h["tok"] = self.tok_of(h, whole) if h["k"] in ("CR", "CA") else NONE
+        if h["k"] in ("CR", "CA") and h["seg"] and h["mor"] and self.chunk[h["k"]] is None:
+            self.chunk[h["k"]] = len(h["data"])
+        h["tok"] = self.tok_of(h, whole or b"") if h["k"] in ("CR", "CA") else NONE
         h["dir"] = d
         self.frame_no += 1
         h["n"] = self.frame_no
@@ -164,44 +175,40 @@ class Rig:
         self.tx.append(fr)
         self.wire.append(fr)
 
+    def _offset(self, piece, whole, last):
+        if last and piece and whole.endswith(piece):
+            return len(whole) - len(piece)
+        return whole.find(piece) if piece else -1
+
     def tok_of(self, h, whole):
-        seg = self.cfg["seg"]
+        """segment index of a data frame = offset of its (position-coded) content in the payload / segment size"""
         if not h["seg"]:
             return 0
-        data = h["data"]
-        n = max(1, -(-len(whole) // seg))
-        cands = [t for t in range(n) if whole[t * seg:(t + 1) * seg] == data]
-        if not cands:
-            return 777777           # a chunk that is not a segment of the payload
-        same = [t for t in cands if t % 256 == h["seq"]]
-        return (same or cands)[0]
+        C = self.chunk[h["k"]] or len(h["data"]) or 1
+        off = self._offset(h["data"], whole, not h["mor"])
+        if off < 0 or (h["mor"] and off % C):
+            return 777777           # not a segment of the payload
+        return -(-off // C)
 
-    def toks_of_buffer(self, buf, whole):
-        """tokens of a (partially) reassembled buffer"""
-        seg = self.cfg["seg"]
-        n = max(1, -(-len(whole) // seg))
-        out, p = [], 0
+    def toks_of_buffer(self, buf, whole, kind):
+        """segment indexes of a (partially) reassembled buffer"""
         buf = bytes(buf)
-        if not buf:
+        C = self.chunk[kind]
+        if not buf or C is None:
             return [0]
-        while p < len(buf):
-            want = (out[-1] + 1) if out else 0
-            order = [want] + [t for t in range(n) if t != want]
-            for t in order:
-                ch = whole[t * seg:(t + 1) * seg]
-                if ch and buf[p:p + len(ch)] == ch:
-                    out.append(t)
-                    p += len(ch)
-                    break
-            else:
-                out.append(777777)
-                break
+        out = []
+        for p in range(0, len(buf), C):
+            piece = buf[p:p + C]
+            off = self._offset(piece, whole, len(piece) < C or p + C >= len(buf))
+            if len(piece) == C and (off < 0 or off % C):
+                off = whole.find(piece)
+            out.append(777777 if off < 0 else -(-off // C))
         return out
 
     def on_indication(self, peer, apdu):
         if isinstance(apdu, AbortPDU):
             return                      # abort forwarded to the server application: nothing to answer
-        toks = self.toks_of_buffer(apdu.pduData, self.req)
+        toks = self.toks_of_buffer(apdu.pduData, self.req, "CR")
         self.sind.append({"toks": toks, "ok": bytes(apdu.pduData) == self.req})
         self.sapp.append([vt.now + self.cfg.get("app_delay", 0) / 1000.0, apdu])
 
@@ -220,7 +227,7 @@ class Rig:
             k = "other"
         rx, ok = [], True
         if isinstance(apdu, ComplexAckPDU):
-            rx = self.toks_of_buffer(apdu.pduData, self.resp or b"")
+            rx = self.toks_of_buffer(apdu.pduData, self.resp or b"", "CA")
             ok = bytes(apdu.pduData) == (self.resp or b"")
         self.cout.append({"k": k, "rx": rx, "at": MS(vt.now), "payload_ok": ok})
 
@@ -230,9 +237,9 @@ class Rig:
         whole = (self.resp if client else self.req) or b""
         rx = []
         if client and st == "SEG_CONF":
-            rx = self.toks_of_buffer(tr.segmentAPDU.pduData, whole)
+            rx = self.toks_of_buffer(tr.segmentAPDU.pduData, whole, "CA")
         if (not client) and st in ("SEG_REQ", "AWAIT_RESP", "SEG_RESP") and tr.segmentAPDU is not None and st != "SEG_RESP":
-            rx = self.toks_of_buffer(tr.segmentAPDU.pduData, whole)
+            rx = self.toks_of_buffer(tr.segmentAPDU.pduData, whole, "CR")
         d = dict(st=st, segRetry=tr.segmentRetryCount or 0, init=(tr.initialSequenceNumber or 0) % 256,
                  base=tr.initialSequenceNumber or 0,
                  last=tr.lastSequenceNumber or 0,
@@ -303,6 +310,8 @@ class Rig:
         apdu.pduDestination = self.s.addr
         apdu.put_data(self.req)
         exc = self.guarded(self.c.ase.request, apdu)
+        if self.c.smap.clientTransactions:
+            self.nq = self.c.smap.clientTransactions[0].segmentCount or 1
         self.log("Submit", exc=exc)
 
     def deliver(self, i):
@@ -357,6 +366,9 @@ class Rig:
             apdu.put_data(self.resp)
         apdu.pduDestination = req.pduSource
         exc = self.guarded(self.s.ase.response, apdu)
+        if isinstance(apdu, ComplexAckPDU):
+            stx = self.s.smap.serverTransactions
+            self.nr = (stx[0].segmentCount or 1) if (stx and stx[0].state == 4) else max(self.nr, 1)
         self.log("AppRespond", 0, exc)
 
     def tick(self):
